@@ -456,6 +456,15 @@ def lean_phase(ctx, prop_modules, bridge_modules):
             ctx.build_log += log
     ok_mods = [m for m in prop_modules + bridge_modules if built[m]]
     ax, out = audit(ok_mods)
+    if ctx.tier == "thorough" and ok_mods:
+        # independent re-check of the compiled .olean files of the property and bridge modules
+        with lake_lock():
+            p = subprocess.run(["lake", "env", "leanchecker"] + ok_mods, cwd=LEAN, stdout=subprocess.PIPE, stderr=subprocess.STDOUT)
+        ctx.supporting["leanchecker"] = "ok" if p.returncode == 0 else "FAILED: " + p.stdout.decode(errors="replace")[-300:]
+        if p.returncode != 0:
+            for mod in ok_mods:
+                built[mod] = False
+            ctx.build_log += p.stdout.decode(errors="replace")
     for mod in prop_modules + bridge_modules:
         path = os.path.join(LEAN, *mod.split(".")) + ".lean"
         names = theorem_names(path) if os.path.exists(path) else []
